@@ -204,6 +204,17 @@ func init() {
 	reg("internal/bytealg.IndexString", strIndex)
 	reg("internal/stringslite.Index", strIndex)
 	reg("strings.Index", strIndex)
+	reg("internal/abi.NoEscape", func(p *Path, _ *frame, a []Value) Value { return a[0] })
+	reg("(*strings.Builder).String", func(p *Path, _ *frame, a []Value) Value {
+		cell := a[0].(*Value)
+		if *cell == nil {
+			return ""
+		}
+		st := (*cell).(Struct) // {addr *Builder, buf []byte}
+		buf, _ := st[1].([]Value)
+		return normStr(SymStr(p.sliceTerms(buf)))
+	})
+	reg("(*strings.Builder).copyCheck", func(p *Path, _ *frame, a []Value) Value { return nil })
 	reg("unsafe.String", func(p *Path, _ *frame, a []Value) Value {
 		panic(unsupported{"unsafe.String"})
 	})
